@@ -1119,6 +1119,10 @@ func (e *Evaluator) evalPatternRules(patternRules []*Rule) error {
 }
 
 func (e *Evaluator) GetRootJson() (string, error) {
+	if e.root == nil {
+		// no input value was read, the root is null
+		return "null", nil
+	}
 	val, err := e.root.Value.ToGoValue()
 	if err != nil {
 		return "", err
